@@ -697,12 +697,15 @@ def labelsOk (hub : Bool) (pre post : Obs) (msgs : List Msg) : Bool :=
     | some c0 => !hub || ((c0.label != c.label) == msgs.contains (.rename c.cid))
     | none => !msgs.contains (.rename c.cid)
 
+def Msg.applyTo (m : Msg) (k : Kind) : Kind :=
+  match m with
+  | .replaced o n => k.replaceDep o n
+  | _ => k
+
 /-- The class of a component after the announced `ComponentReplaced(o, n)`: a derived component that
 read `o` now reads `n` (nothing else about a component's class follows from a message). -/
 def kindAfter (msgs : List Msg) (k : Kind) : Kind :=
-  msgs.foldl (fun k m => match m with
-    | .replaced o n => k.replaceDep o n
-    | _ => k) k
+  msgs.foldl (fun k m => m.applyTo k) k
 
 /-- A surviving component whose class / shape / values changed is covered by a
 `NumericalDataChanged` (with a hub); the inputs of a derived component follow the announced
